@@ -38,6 +38,16 @@ func (w *Worker) RunResolveOrders(sk *Skeleton, property string) *SkelResult {
 		}
 		return s, nil
 	}
+	parseDocs := func() map[string]*jsonschema.Schema {
+		out := map[string]*jsonschema.Schema{}
+		for uri, text := range sk.Universe {
+			d := new(jsonschema.Schema)
+			if json.Unmarshal([]byte(text), d) == nil {
+				out[uri] = d
+			}
+		}
+		return out
+	}
 	nativeSummary := func() (out string, panicked any) {
 		defer func() {
 			if r := recover(); r != nil {
@@ -47,6 +57,9 @@ func (w *Worker) RunResolveOrders(sk *Skeleton, property string) *SkelResult {
 		s, err := parse()
 		if err != nil {
 			return "unmarshal-error", nil
+		}
+		if sk.Universe != nil {
+			return jsonschema.VerifResolveSummaryWith(s, parseDocs()), nil
 		}
 		return jsonschema.VerifResolveSummary(s), nil
 	}
@@ -63,11 +76,18 @@ func (w *Worker) RunResolveOrders(sk *Skeleton, property string) *SkelResult {
 	m.AllOrders = true
 	res.Stats = m.Stats
 	fn := m.P.Func("VerifResolveSummary")
+	if sk.Universe != nil {
+		fn = m.P.Func("VerifResolveSummaryWith")
+	}
 	schemaPtr := types.NewPointer(m.P.NamedType("Schema"))
+	docsT := types.NewMap(types.Typ[types.String], schemaPtr)
 	differ := map[string]bool{}
 	m.Explore(func(m *sx.Machine) sx.Value {
 		s, _ := parse()
 		im := sx.NewImporter(m)
+		if sk.Universe != nil {
+			return m.Call(fn, im.Import(reflect.ValueOf(s), schemaPtr), im.Import(reflect.ValueOf(parseDocs()), docsT))
+		}
 		return m.Call(fn, im.Import(reflect.ValueOf(s), schemaPtr))
 	}, func(m *sx.Machine, r *sx.PathResult) {
 		if r.Outcome == sx.OutPanic {
@@ -174,6 +194,11 @@ func ResolveOrderDocs() []*Skeleton {
 	mk := func(name string, doc J) *Skeleton {
 		return &Skeleton{Name: "F-resorder/" + name, Family: "F-resorder", Doc: js(doc), Draft: refsem.Draft2020}
 	}
+	mkU := func(name string, doc J, universe map[string]string) *Skeleton {
+		sk := mk(name, doc)
+		sk.Universe = universe
+		return sk
+	}
 	str, num := J{"type": "string"}, J{"type": "number"}
 	return []*Skeleton{
 		mk("ids-distinct", J{"$id": "http://h/root.json", "$defs": J{"a": merge(J{"$id": "a.json"}, str), "b": merge(J{"$id": "b.json"}, num)}, "properties": J{"p": J{"$ref": "a.json"}, "q": J{"$ref": "http://h/b.json"}}}),
@@ -185,6 +210,19 @@ func ResolveOrderDocs() []*Skeleton {
 		mk("dynamic-anchors", J{"$id": "http://h/root.json", "$defs": J{"a": J{"$id": "a.json", "$defs": J{"t": merge(J{"$dynamicAnchor": "T"}, str)}, "$dynamicRef": "#T"}, "b": J{"$id": "b.json", "$defs": J{"t": merge(J{"$dynamicAnchor": "T"}, num)}, "$ref": "a.json"}}, "$ref": "b.json"}),
 		mk("pointer-refs", J{"$defs": J{"a": str, "b": num, "c": J{"$ref": "#/$defs/a"}}, "properties": J{"p": J{"$ref": "#/$defs/c"}, "q": J{"$ref": "#/$defs/b"}}, "patternProperties": J{"^x": J{"$ref": "#/properties/p"}}}),
 		mk("draft7-like-dependencies", J{"dependentSchemas": J{"a": J{"$ref": "#/$defs/s"}, "b": J{"$ref": "#/$defs/n"}}, "$defs": J{"s": str, "n": num}}),
+		mkU("remote-diamond-mixed-drafts", J{"$id": "http://h/root.json", "properties": J{"a": J{"$ref": "a.json"}, "c": J{"$ref": "c.json#foo"}}}, map[string]string{
+			"http://h/a.json": `{"$schema":"http://json-schema.org/draft-07/schema#","title":"A","properties":{"x":{"$ref":"c.json"}}}`,
+			"http://h/c.json": `{"title":"C","$anchor":"foo","$defs":{"d":{"title":"Cd","$anchor":"bar"}}}`,
+		}),
+		mkU("remote-diamond", J{"$id": "http://h/root.json", "properties": J{"a": J{"$ref": "a.json"}, "b": J{"$ref": "b.json#/$defs/m"}, "c": J{"$ref": "c.json#foo"}}}, map[string]string{
+			"http://h/a.json": `{"title":"A","properties":{"x":{"$ref":"c.json#foo"}}}`,
+			"http://h/b.json": `{"title":"B","$defs":{"m":{"title":"Bm","$ref":"c.json"}}}`,
+			"http://h/c.json": `{"title":"C","$defs":{"d":{"title":"Cd","$anchor":"foo"}}}`,
+		}),
+		mkU("remote-draft7-root", J{"$schema": "http://json-schema.org/draft-07/schema#", "$id": "http://h/root.json", "definitions": J{"p": J{"$ref": "c.json"}, "q": J{"$id": "#frag", "title": "q"}}, "properties": J{"a": J{"$ref": "a.json"}}}, map[string]string{
+			"http://h/a.json": `{"$schema":"https://json-schema.org/draft/2020-12/schema","title":"A","properties":{"x":{"$ref":"c.json"}}}`,
+			"http://h/c.json": `{"title":"C","definitions":{"k":{"$id":"#k","title":"Ck"}}}`,
+		}),
 		mk("unresolvable-two", J{"properties": J{"p": J{"$ref": "#/$defs/missing1"}, "q": J{"$ref": "#/$defs/missing2"}}}),
 	}
 }
